@@ -66,22 +66,35 @@ theorem C09_server_error_aborts_all (s : St) (now : Nat)
   · rw [heq]
     exact ⟨dropServer_dropped _ (by simp [hdr, hp]), dropServer_aborts_all _ (by simp [hdr, hp])⟩
 
-/-- **C09 (server): no panic** other than the `DelayQueue` range panic (`insert` with a deadline more
+/-- **C09 (server): no panic** other than the `DelayQueue` range panic (`insert` with a timer more
 than `2^36 - 1` ms ahead of the wheel): in every reachable state, every `Obs.panic` observed carries
 that message.  In particular `deadlines.remove(&key)` is never called with an unknown key (the table /
-timer bijection of `Lemmas/ServerTable.lean`). -/
+timer bijection of `Lemmas/ServerTable.lean`).  Since `start_request` clamps the timeout it arms, the
+range panic itself is unreachable for any deadline while the clock is below `2^35` ms:
+`C16_server_no_panic` (`Props/C16Server.lean`) strengthens this theorem to "no panic at all". -/
 theorem C09_server_no_other_panic (limit : Option Nat) (respCap tcap : Nat) (coupled : Bool) (ops : List SOp) :
     ∀ ep m, Obs.panic ep m ∈ (ops.foldl applyOp (initSys limit respCap tcap coupled)).s.obs →
-      m = "DelayQueue::insert: invalid deadline" :=
-  (sinv_reach limit respCap tcap coupled ops).panics
+      m = "DelayQueue::insert: invalid deadline" := by
+  obtain ⟨born, h, _⟩ := sinv_reach true limit respCap tcap coupled ops
+  exact fun ep m hm => (h.panics ep m hm).1
 
-/-- The range panic is real: a request whose deadline lies more than `2^36 - 1` ms ahead poisons the
-model (the real `DelayQueue::insert` panics with `invalid deadline`). -/
-theorem C09_server_range_panic_witness :
-    let c := [SOp.injectReq 1 (2 ^ 36 * 1000000 + 1) ⟨0, .given 0, false⟩ 0, .pollServer].foldl applyOp
-      (initSys none 1 1 true)
-    c.s.poisoned = true ∧ c.s.obs.any (fun o => o == .panic (.server 0) "DelayQueue::insert: invalid deadline") = true := by
-  decide
+/-- **Why the clamp is needed (the obligation of `C16_server_no_panic` is not vacuous).**  *Without* the
+clamp — arming the timer with the full `deadline - now` — `DelayQueue::insert` panics for every request
+whose deadline lies more than `2^36 - 1` ms ahead of the wheel (`invalid deadline`): from any queue,
+at any clock, for any timeout with `ceilMs (now + timeout) > wheelElapsed + (2^36 - 1)`.  (Before the
+fix the model, like the code, poisoned the channel here; the former witness script
+`[injectReq 1 (2^36 ms + 1) …, pollServer]` now arms a one-year timer instead:
+`C16_server_far_deadline_ok`.) -/
+theorem C09_server_range_panic_witness (q : DelayQ) (now timeout val : Nat)
+    (h : q.wheelElapsed + delayQMaxMs < ceilMs (now + timeout)) :
+    (q.insert now timeout val).2.1 = .panic := by
+  unfold DelayQ.insert
+  have h1 : max (ceilMs (now + timeout)) q.wheelElapsed = ceilMs (now + timeout) := Nat.max_eq_left (by omega)
+  simp only [h1]
+  rw [if_pos (by simp only [Bool.and_eq_true, decide_eq_true_eq]; omega)]
+
+/-- … concretely: a timeout of `2^36` ms + 1 ns on a fresh queue. -/
+example : (({} : DelayQ).insert 0 (2 ^ 36 * 1000000 + 1) 1).2.1 = .panic := by decide
 
 /-- Non-vacuity of the tag theorem: a read fault, a ready fault, a flush fault and a write fault each
 end the stream with their own tag. -/
